@@ -327,6 +327,14 @@ func (session *HermesSession) Run(workingDir string, args []string, logID string
 
 			g.TAG.Add(g.DT.Index)
 			if g.TAG.Index+1 > g.JTAG {
+				// the loaded weather year must be complete before the calendar moves on to the next year
+				daysInYear := 365
+				if (1900+g.J)%4 == 0 {
+					daysInYear = 366
+				}
+				if g.JTAG < daysInYear {
+					return fmt.Errorf("weather data of year %d has records for %d of %d days only", 1900+g.J, g.JTAG, daysInYear)
+				}
 				g.J++
 				JZ = JZ + 1
 				//MONAT 1 TAG 1
